@@ -96,14 +96,24 @@ func NewIntFromString(typ *types.IntType, s string) (*Int, error) {
 			x = new(big.Int).Sub(x, maxPlus1)
 
 		}
-		return &Int{Typ: typ, X: x}, nil
+		return &Int{Typ: typ, X: boolValue(typ, x)}, nil
 	}
 	// Integer literal.
 	x, _ := (&big.Int{}).SetString(s, 10)
 	if x == nil {
 		return nil, errors.Errorf("unable to parse integer constant %q", s)
 	}
-	return &Int{Typ: typ, X: x}, nil
+	return &Int{Typ: typ, X: boolValue(typ, x)}, nil
+}
+
+// boolValue returns 1 for the signed spelling -1 of the 1-bit value true (e.g.
+// `i1 -1`), so that it is the same constant as `i1 true` and `i1 1`; any other
+// value is returned as is.
+func boolValue(typ *types.IntType, x *big.Int) *big.Int {
+	if typ.BitSize == 1 && x.IsInt64() && x.Int64() == -1 {
+		return big.NewInt(1)
+	}
+	return x
 }
 
 // String returns the LLVM syntax representation of the constant as a type-value
